@@ -94,15 +94,11 @@ fn collect_plugin_output((subprocess, stdin_writer): PluginProcess) -> std::io::
 
     // If the subprocess wrote anything to its 'stderr', we consider this a failure and don't generate any code.
     if !output.stderr.is_empty() {
-        // Obtain an exclusive handle to this process's 'stderr'.
-        let mut stderr = std::io::stderr().lock();
-
-        // Pipe the output from the subprocess's 'stderr' to this process's 'stderr', and then return.
-        let error = match stderr.write_all(&output.stderr) {
-            Ok(_) => Error::other("errors reported on 'stderr'"),
-            Err(err) => Error::new(ErrorKind::BrokenPipe, err),
-        };
-        return Err(error);
+        // What the subprocess wrote is reported as part of the error, instead of being piped to this process's 'stderr'
+        // as it is: that stream only carries diagnostics, in the format the user asked for.
+        let reported_errors = String::from_utf8_lossy(&output.stderr);
+        let message = format!("errors reported on 'stderr':\n{}", reported_errors.trim_end());
+        return Err(Error::other(message));
     }
 
     // Otherwise, check the subprocess's status code to determine success.
